@@ -216,9 +216,24 @@ func (l *lockedRand) Read(p []byte) (int, error) {
 	return l.r.Read(p)
 }
 
-func newRig(model *sm.Model, init sm.State, rng *vk.Rand) *rig {
+// stuckRand is a source of randomness that repeats itself: every id generation starts from the same candidate.
+type stuckRand struct{}
+
+func (stuckRand) Read(p []byte) (int, error) {
+	for i := range p {
+		p[i] = 0x5a
+	}
+	return len(p), nil
+}
+
+func newRig(model *sm.Model, init sm.State, rng *vk.Rand, stuck ...bool) *rig {
 	g := &rig{model: model, rec: &recorder{}, lower: model.Cfg.LowerIDs}
-	opts := append(model.ResourceOptions(), resource.WithClock(&clock{frozen: rng.Bool()}), resource.WithRNG(&lockedRand{r: rng.Fork()}))
+	opts := append(model.ResourceOptions(), resource.WithClock(&clock{frozen: rng.Bool()}))
+	if len(stuck) > 0 && stuck[0] {
+		opts = append(opts, resource.WithRNG(stuckRand{}))
+	} else {
+		opts = append(opts, resource.WithRNG(&lockedRand{r: rng.Fork()}))
+	}
 	if rng.Chance(1, 3) {
 		// an equivalence for subscribers (here a coarse one: only default_int32 counts) says which changes are worth
 		// telling them about; it has no say in whether two writers conflict
@@ -310,8 +325,9 @@ type victimSpec struct {
 }
 
 type interfererSpec struct {
-	name string
-	ops  func(g *rig, cur *tat) []sm.Op
+	name  string
+	ops   func(g *rig, cur *tat) []sm.Op
+	stuck bool // the collection's random source repeats itself: concurrent id generations propose the same id
 }
 
 func victims() []victimSpec {
@@ -384,28 +400,31 @@ func interferers() []interfererSpec {
 		return proto.Clone(cur).(*tat)
 	}
 	return []interfererSpec{
-		{"none", func(g *rig, cur *tat) []sm.Op { return nil }},
-		{"update", func(g *rig, cur *tat) []sm.Op {
+		{name: "none", ops: func(g *rig, cur *tat) []sm.Op { return nil }},
+		{name: "update", ops: func(g *rig, cur *tat) []sm.Op {
 			return []sm.Op{opUpdate("a", g.val3(1, 0), sm.Opts{CreateIfAbsent: true})}
 		}},
-		{"update-aba", func(g *rig, cur *tat) []sm.Op {
+		{name: "update-aba", ops: func(g *rig, cur *tat) []sm.Op {
 			return []sm.Op{opUpdate("a", g.val3(1, 0), sm.Opts{CreateIfAbsent: true}), opUpdate("a", same(cur), sm.Opts{})}
 		}},
-		{"delta", func(g *rig, cur *tat) []sm.Op {
+		{name: "delta", ops: func(g *rig, cur *tat) []sm.Op {
 			return []sm.Op{opUpdate("a", &tat{DefaultInt64: 3}, sm.Opts{Before: true, HasUpdateMask: true, UpdateMask: []string{"default_int64"}, CreateIfAbsent: true})}
 		}},
-		{"delete", func(g *rig, cur *tat) []sm.Op {
+		{name: "delete", ops: func(g *rig, cur *tat) []sm.Op {
 			return []sm.Op{{Kind: sm.Delete, ID: "a", Opts: sm.Opts{AllowMissing: true}}}
 		}},
-		{"delete-readd-same", func(g *rig, cur *tat) []sm.Op {
+		{name: "delete-readd-same", ops: func(g *rig, cur *tat) []sm.Op {
 			return []sm.Op{{Kind: sm.Delete, ID: "a", Opts: sm.Opts{AllowMissing: true}}, {Kind: sm.Add, ID: "a", Val: same(cur)}}
 		}},
-		{"delete-readd-other", func(g *rig, cur *tat) []sm.Op {
+		{name: "delete-readd-other", ops: func(g *rig, cur *tat) []sm.Op {
 			return []sm.Op{{Kind: sm.Delete, ID: "a", Opts: sm.Opts{AllowMissing: true}}, {Kind: sm.Add, ID: "a", Val: g.val3(1, 1)}}
 		}},
-		{"add", func(g *rig, cur *tat) []sm.Op { return []sm.Op{{Kind: sm.Add, ID: "a", Val: g.val3(1, 0)}} }},
-		{"add-empty", func(g *rig, cur *tat) []sm.Op { return []sm.Op{{Kind: sm.Add, ID: "a", Val: &tat{}}} }},
-		{"add-delete", func(g *rig, cur *tat) []sm.Op {
+		{name: "add", ops: func(g *rig, cur *tat) []sm.Op { return []sm.Op{{Kind: sm.Add, ID: "a", Val: g.val3(1, 0)}} }},
+		{name: "add-genid-same-candidate", stuck: true, ops: func(g *rig, cur *tat) []sm.Op {
+			return []sm.Op{{Kind: sm.Add, ID: "", Val: g.val3(1, 0), Opts: sm.Opts{GenID: true, IDCallback: true}}}
+		}},
+		{name: "add-empty", ops: func(g *rig, cur *tat) []sm.Op { return []sm.Op{{Kind: sm.Add, ID: "a", Val: &tat{}}} }},
+		{name: "add-delete", ops: func(g *rig, cur *tat) []sm.Op {
 			return []sm.Op{{Kind: sm.Add, ID: "a", Val: g.val3(1, 0)}, {Kind: sm.Delete, ID: "a", Opts: sm.Opts{AllowMissing: true}}}
 		}},
 	}
@@ -455,7 +474,7 @@ func forcedScenario(r *vk.Run, sched *vk.Sched, model *sm.Model, v victimSpec, w
 	if cur != nil {
 		init["a"] = sm.Item{Msg: proto.Clone(cur)}
 	}
-	g := newRig(model, init, r.Rand("forced-ids"))
+	g := newRig(model, init, r.Rand("forced-ids"), in.stuck)
 	key := fmt.Sprintf("%s@%s/%s/%s", v.name, w, in.name, preName)
 	if v2 != nil {
 		key = fmt.Sprintf("%s@%s+%s@%s/%s/%s", v.name, w, v2.name, w2, in.name, preName)
